@@ -94,6 +94,28 @@ instance : Inhabited MapEnv :=
   ⟨{ id := default, minIndexable := default, maxIndexable := default, relAcc := default,
      value := fun _ => default, lowerBound := fun _ => default, index := fun _ => default }⟩
 
+/-- Go error values of `mapping.Decode` and of the constructors it calls -/
+def errUnknownMapping : GoErr := GoErr.named "unknown mapping"
+def errBadGamma : GoErr := GoErr.named "Gamma must be greater than 1."
+
+/-- `mapping.Decode` through the model: the two little-endian floats after a mapping flag and `MapId.ofBlock`
+    (the oracle functions of the resulting `MapEnv` are defaults: only its identity is decoded) -/
+def mapDecode (b : List (BitVec 8)) (flag : Gen.Encoding.Flag) : List (BitVec 8) × MapEnv × GoErr :=
+  let sub := Wire.flagSub flag.byte.toNat
+  let known := sub = Consts.subFlagIndexMappingBaseLogarithmic ∨ sub = Consts.subFlagIndexMappingBaseLinear ∨
+    sub = Consts.subFlagIndexMappingBaseCubic
+  if ¬ known then (b, default, errUnknownMapping)
+  else match Codec.decF64LE (b.map BitVec.toNat) with
+    | .error _ => (b, default, GoErr.eof)
+    | .ok (g, bs1) =>
+      match Codec.decF64LE bs1 with
+      | .error _ => (bs1.map (BitVec.ofNat 8), default, GoErr.eof)
+      | .ok (o, bs2) =>
+        match MapId.ofBlock sub g o with
+        | .ok id => (bs2.map (BitVec.ofNat 8), { (default : MapEnv) with id := id }, GoErr.nil)
+        | .error .unknownMapping => (bs2.map (BitVec.ofNat 8), default, errUnknownMapping)
+        | .error .gammaTooSmall => (bs2.map (BitVec.ofNat 8), default, errBadGamma)
+
 instance : MapI MapEnv where
   Equals a b := a.id.equals b.id
   Index e := e.index
@@ -103,6 +125,8 @@ instance : MapI MapEnv where
   MinIndexableValue e := e.minIndexable
   MaxIndexableValue e := e.maxIndexable
   Encode e b := b ++ (Wire.encBlock e.id.toBlock).map (BitVec.ofNat 8)
+  isNil _ := false
+  Decode := mapDecode
 
 @[simp] theorem map_equals (a b : MapEnv) : MapI.Equals a b = a.id.equals b.id := rfl
 @[simp] theorem map_index (e : MapEnv) (v : F64) : MapI.Index e v = e.index v := rfl
@@ -154,6 +178,21 @@ def storeEncode (st : Store) (b : List (BitVec 8)) (t : Gen.Encoding.FlagType) :
   | some (st', blocks) => (st', b ++ (Wire.encBlocks blocks).map (BitVec.ofNat 8))
   | none => (st, b)
 
+/-- the Go error value of a decoding error of the model -/
+def decErr : SkErr → GoErr
+  | .eof => GoErr.eof
+  | .unknownBinEncoding => GoErr.named "unknown bin encoding"
+  | _ => GoErr.named "decoding error"
+
+/-- `Store.DecodeAndMergeWith` through the model's `Sketch.decodeStore`; on an error the store has absorbed
+    the bins read so far in Go, which the model does not expose: the instance returns the unchanged store (the
+    sketch-level decoder returns as soon as it sees the error) -/
+def storeDecode (st : Store) (b : List (BitVec 8)) (sub : Gen.Encoding.SubFlag) : Store × List (BitVec 8) × GoErr :=
+  match Sketch.decodeStore st sub.byte.toNat (b.map BitVec.toNat) with
+  | some (.ok (st', rest)) => (st', rest.map (BitVec.ofNat 8), GoErr.nil)
+  | some (.error e) => (st, b, decErr e)
+  | none => (st, b, GoErr.nil)
+
 instance : StoreI Store where
   Add st i := (st.addWithCount i 1).getD st
   AddWithCount := storeAddF
@@ -167,6 +206,7 @@ instance : StoreI Store where
   MergeWith st o := (st.mergeWith o).getD st
   Reweight := storeReweight
   Encode := storeEncode
+  DecodeAndMergeWith := storeDecode
 
 @[simp] theorem store_add (st : Store) (i : Int) : StoreI.Add st i = (st.addWithCount i 1).getD st := rfl
 @[simp] theorem store_addWithCount (st : Store) (i : Int) (c : F64) :
